@@ -116,7 +116,10 @@ def forbidden_tokens():
     for p in sorted(LEAN.rglob("*.lean")):
         if ".lake" in p.parts:
             continue
-        txt = strip_lean_comments(p.read_text())
+        try:
+            txt = strip_lean_comments(p.read_text())
+        except FileNotFoundError:
+            continue
         for i, line in enumerate(txt.split("\n"), 1):
             for pat in FORBIDDEN:
                 if re.search(pat, line):
@@ -129,7 +132,8 @@ def audit_axioms(theorems, imports=("CollectionsC",)):
     if not theorems:
         return {}
     src = "".join(f"import {m}\n" for m in imports) + "\n".join(f"#print axioms {t}" for t in theorems) + "\n"
-    with tempfile.NamedTemporaryFile("w", suffix=".lean", dir=LEAN, delete=False) as f:
+    (CACHE / "audit").mkdir(parents=True, exist_ok=True)
+    with tempfile.NamedTemporaryFile("w", suffix=".lean", dir=CACHE / "audit", delete=False) as f:
         f.write(src)
         name = f.name
     try:
